@@ -235,4 +235,12 @@ Proof.
   intros Hc Hin. destruct (lru_recency cap ops k Hc Hin) as [v Hv]. exists v. split; [exact Hv|].
   apply (lru_reads_last_write cap). exact Hv.
 Qed.
+(* a read moves an entry to the front and changes no answer: every key reads the same before and after *)
+Lemma get_changes_no_answer cap t k x : lookup (step cap t (Get k)) x = lookup t x.
+Proof.
+  cbn [step]. unfold mc_get. destruct (lookup t k) as [v|] eqn:E; cbn [fst]; [|reflexivity].
+  cbn [lookup]. destruct (eqb x k) eqn:Ex.
+  - apply keqb_eq in Ex. subst x. symmetry. exact E.
+  - apply lookup_del_other. exact Ex.
+Qed.
 End Lru.
